@@ -110,8 +110,10 @@ func failCapped(sig, what string, c any) {
 // do not depend on what the injected error looks like, so only the runs with
 // the plain sentinel are compared with them; the other error shapes are judged
 // by the direct oracle.
+var noModel bool
+
 func corrLine(name, format string, a ...any) {
-	if curShape.name == "plain" {
+	if curShape.name == "plain" && !noModel {
 		e.Line(name, format, a...)
 	}
 }
@@ -495,6 +497,7 @@ func main() {
 	docs = append(docs, policyDocs()...)
 	nFixed := len(docs)
 	docs = append(docs, lookaheadDocs()...)
+	docs = append(docs, damagedDocs(docs[:nFixed])...)
 	nLook := len(docs) - nFixed
 	versions := []pdf.Version{pdf.V1_4, pdf.V1_7, pdf.V2_0, pdf.V1_7, pdf.V1_3, pdf.V1_6}
 	nw := e.Pick(14, 70)
@@ -528,6 +531,18 @@ func main() {
 			continue
 		}
 		e.Sample(6, map[string]any{"doc": d.name, "class": d.class, "bytes": len(d.data), "objects": len(d.refs)})
+		if d.seqOnly {
+			// damaged file: SequentialScan+MakeReader in Recover mode; judged by the
+			// direct oracle against the fault-free result on the same damaged file
+			noModel, activeModes = true, []fmode{fmFrom, fmOnly, fmHalf}
+			exploreSeq(di, d, 0)
+			noModel, activeModes = false, fmodes
+			lap("doc:damaged")
+			if aborted() {
+				break
+			}
+			continue
+		}
 		if d.light {
 			exploreOps(di, d, true)
 			lap("doc:lookahead")
